@@ -3,8 +3,8 @@ CONSTANTS NV = 4
           Mode = "C33"
           Areas = {"node","sc","rel","sv"}
           AltSp = TRUE
-          MaxView = 1
-          MaxHeight = 1
+          MaxView = 3
+          MaxHeight = 3
           MaxId = 2
           MaxSigns = 99
           NWho = 1
